@@ -41,6 +41,7 @@ class Ctx:
         self.floors = {}
         self.analysed_functions = set()
         self.tables = {}       # exception-table entries actually used: name -> reason
+        self._keys = {}
 
     def fn(self, key):
         f = self.prog.func(key)
@@ -51,6 +52,11 @@ class Ctx:
         self.analysed_functions.add(fn.key)
 
     def ob(self, rule, key, ok, where, desc, detail='', nontrivial=True):
+        # identical constructs in one function get an ordinal so that keys stay unique
+        n = self._keys.get((rule, key), 0)
+        self._keys[(rule, key)] = n + 1
+        if n:
+            key = f'{key}#{n}'
         self.obs.append(Obligation(rule, key, bool(ok), where, desc, detail, nontrivial))
         return bool(ok)
 
